@@ -6,6 +6,7 @@
 package core
 
 import (
+	"runtime"
 	"encoding/binary"
 	"encoding/json"
 	"fmt"
@@ -114,7 +115,13 @@ func FirstShard() bool {
 func Call(d time.Duration, f func()) (returned bool, panicked interface{}) {
 	done := make(chan interface{}, 1)
 	go func() {
-		defer func() { done <- recover() }()
+		defer func() {
+			if r := recover(); r != nil {
+				done <- Panicked{Value: r, Harness: panicFromHarness()}
+				return
+			}
+			done <- nil
+		}()
 		f()
 	}()
 	select {
@@ -122,6 +129,65 @@ func Call(d time.Duration, f func()) (returned bool, panicked interface{}) {
 		return true, p
 	case <-time.After(d):
 		return false, nil
+	}
+}
+
+// Panicked is a recovered panic together with where it came from; Call returns it in place
+// of the bare value, so that a caller that raises it again does not hide its origin
+type Panicked struct {
+	Value   interface{}
+	Harness bool
+}
+
+func (p Panicked) String() string { return fmt.Sprint(p.Value) }
+func (p Panicked) Error() string  { return fmt.Sprint(p.Value) }
+
+// panicFromHarness inspects the stack of the goroutine that is panicking right now (call it
+// from a deferred function): true if the innermost frame that belongs to a module - skipping
+// the runtime and the standard library - is harness code, i.e. the harness itself is buggy
+func panicFromHarness() bool {
+	buf := make([]byte, 1<<16)
+	lines := strings.Split(string(buf[:runtime.Stack(buf, false)]), "\n")
+	seen := false
+	for _, l := range lines {
+		if strings.HasPrefix(l, "\t") || l == "" {
+			continue
+		}
+		if !seen {
+			seen = strings.HasPrefix(l, "panic(")
+			continue
+		}
+		fn := l
+		if i := strings.Index(fn, "("); i > 0 {
+			fn = fn[:i]
+		}
+		switch {
+		case strings.HasPrefix(fn, "verif/harness/"):
+			return true
+		case strings.Contains(fn, "/") && strings.Contains(strings.SplitN(fn, "/", 2)[0], "."):
+			return false // github.com/..., golang.org/..., pgregory.net/...: code under test or a library
+		}
+	}
+	return false
+}
+
+// HarnessPanic must be called first thing where a panic is recovered and turned into a
+// finding: if the panic was raised by the harness itself it is a bug of the machinery, not a
+// property of the code under test, and the process ends without a verdict (the driver
+// reports a machinery error, exit 2)
+func HarnessPanic(r interface{}) {
+	harness := false
+	switch x := r.(type) {
+	case Panicked:
+		harness = x.Harness
+	case FatalExit:
+	default:
+		harness = panicFromHarness()
+	}
+	if harness {
+		buf := make([]byte, 1<<16)
+		fmt.Fprintf(os.Stderr, "HARNESS-BUG: panic raised by the harness itself: %v\n%s\n", r, buf[:runtime.Stack(buf, false)])
+		os.Exit(70)
 	}
 }
 
